@@ -284,7 +284,7 @@ func c08MutateLines(t *rapid.T, text string, isLog bool, muts *[]string) []byte 
 		case 22:
 			name = "degenerate-note"
 			k := pick()
-			lines[k] = lines[k] + []string{"  #\n", "  # \n", "\t#:\n", "  #:\n", "  # :\n", "  ##\n", "  # : :\n", "  #\t\n"}[rapid.IntRange(0, 7).Draw(t, "dn")]
+			lines[k] = lines[k] + []string{"  #\n", "  # \n", "\t#:\n", "  #:\n", "  # :\n", "  ##\n", "  # : :\n", "  #\t\n", "  # weight at 7: #\n", "  # 12:30 snack\n", "  # a: #\n", "  # 7:\n", "  #7:#\n", "  # :7\n", "  ## 5:5 ##\n", "  # 50%\n"}[rapid.IntRange(0, 15).Draw(t, "dn")]
 		case 23:
 			name = "degenerate-entry"
 			k := pick()
